@@ -31,6 +31,19 @@ THEOREMS = [
     'IblVerif.C11.cbin_ch_rate_counterexample',
     'IblVerif.C11.round_counterexample',
     'IblVerif.C11.offline_incomplete_meta_counterexample',
+    # round h: steps of open, re-opening, growing files, constructor without meta data
+    'IblVerif.C11.open_steps_spec',
+    'IblVerif.C11.steps_agree_with_open',
+    'IblVerif.C11.reopen_same_offline',
+    'IblVerif.C11.reopen_same_offline_std',
+    'IblVerif.C11.online_reopen_grown',
+    'IblVerif.C11.online_reopen_grown_std',
+    'IblVerif.C11.grown_prefix_stable',
+    'IblVerif.C11.offline_reopen_stale_counterexample',
+    'IblVerif.C11.nometa_768',
+    'IblVerif.C11.nometa_770',
+    'IblVerif.C11.nometa_both_384_wins',
+    'IblVerif.C11.nometa_neither',
 ]
 RULE = ('real files on disk: (channels nc, dtype, sampling-rate text, announced fileTimeSecs text, k complete frames, r trailing '
         'bytes, reader offline/online, format .bin/.cbin/flat-without-meta, ignore_warnings, presence of the fileTimeSecs/'
@@ -43,7 +56,12 @@ RULE = ('real files on disk: (channels nc, dtype, sampling-rate text, announced 
         'enough for more than half a sample of drift, 1-2 channels) or grossly different (2500 vs 30000), '
         'OnlineReader on a growing file; the shipped recording-in-progress .meta (no fileTimeSecs/fileSizeBytes) under the '
         'OnlineReader at every kind of size. A case is non-trivial when the file has >= 1 frame and disagrees with its meta data '
-        '(trailing bytes or announced length != frames present); distinct by the whole case description')
+        '(trailing bytes or announced length != frames present); distinct by the whole case description. Round h: the same reader '
+        'OBJECT closed and opened again (op reopen: unchanged file for both readers; OnlineReader on a file appended to in between '
+        'by 1 byte / less than a frame / exactly m frames / frames + trailing bytes; a NEW reader of the same class on the grown '
+        'file), and files WITHOUT meta data opened through the size inference of the constructor (op nometa: multiples of 768, of '
+        '770 with 1..8 and 383..1500 frames, of both = 295 680, odd multiples of 384 / 385, neighbours, arbitrary sizes; none / some '
+        '/ all of nc, ns, fs, nsync given, 0 = falsy; int16 / int32)')
 ASSUMPTIONS = [
     'input forms: for 60 % of the cases the FORM of the call is drawn independently of the value (dtype as str / np.dtype / type '
     'incl. float32/float64 data; file as Path / str / its .meta as Path or str / meta_file= or ch_file= keyword; constructor vs '
@@ -61,6 +79,18 @@ ASSUMPTIONS = [
     'meta data is inside the property and is generated and judged (any size, default and ignore_warnings=True)',
     'Reader(bin, nc=, ns=, fs=) without a .meta (flat mode) has no meta data to disagree with: modelled and compared '
     '(np.memmap refuses a too long map), not judged by the oracle',
+    'constructor without meta data: the float test st_size / 384 % 2 == 0 is modelled as 768 | st_size (exact below 2^53) and '
+    'int(st_size / 2 / 384) as the exact quotient; the oracle judges only Reader(path) with nothing else given, int16, on a size '
+    'that is a whole number of 384- or 385-channel frames (opens, ns * nc * 2 = size); with arguments given, other sizes or dtypes '
+    'model and code are compared but nothing is demanded. A multiple of both 768 and 770 is read as 384 channels (theorem '
+    'nometa_both_384_wins): the exposed frames still cover the file, which is all the property asks',
+    're-opening: an OFFLINE Reader object is re-opened only on an unchanged file. Re-opened after the file has grown it keeps the '
+    'frame count of its construction (self.nbytes is read once in __init__; theorem offline_reopen_stale_counterexample, '
+    'demonstration known_findings()[offline-reopen-stale-size], not listed in known_findings.txt yet): that class is excluded '
+    'from the generator and the oracle; a NEW offline Reader on the grown file and the re-opened OnlineReader are judged',
+    'warnings are not part of the property: which steps open performs (warning, rewrite, map) is proved about the step model and '
+    'tied to the source text by the translator tie only; the correspondence compares their consequences (outcome, ns, shape, '
+    'duration, values, with and without ignore_warnings), never the log',
     'duration: rl and the rewritten fileTimeSecs are compared with the model\'s float64 values with a tolerance of a quarter '
     'sample period (|d|*fs <= 0.25): "matches the exposed sample count"; bit-exact agreement is counted in the notes',
     'float statements are proved over R in the standard model of binary64 rounding (|delta| <= 2^-53, integers up to 2^53 '
@@ -76,17 +106,40 @@ TRUSTED = [
     'IEEE binary64 in the driver (same operation sequence as Python: int/int, float/float, float*float, rint, trunc)',
     'np.memmap(mode="r", shape) raises ValueError exactly when shape*itemsize exceeds the file size or the file is empty',
     'mtscomp.Reader.shape is the (n_samples, n_channels) of the .ch file and its slicing agrees with NumPy for in-range rows',
+    'translator tie: harness/pyfn2lean.py and the per-item assumptions of harness/tiespecs/c11.py (the four non-integer tests of '
+    'Reader.open fixed per item; self.ns read as one symbol although the property is re-evaluated after the rewrite — the '
+    're-evaluation is the composed theorems ns_after_open_eq / ns_after_cbin_open_eq); event patterns are regular expressions '
+    'on the unparsed statements (a warning is "subscripting" when its text contains self.meta[ )',
+    'Reader.close closes the map and changes no attribute the sample count depends on (re-open model: openBinAt)',
 ]
+LEVEL_TEXT_H = (' Round h: open_steps_spec / steps_agree_with_open (fileTimeSecs is rewritten exactly when nc*ns*itemsize != nbytes on a '
+                'reader with meta data, independent of ignore_warnings, the uncompressed warning never subscripts the meta data, the '
+                'map is last, and the step model agrees with the value model); reopen_same_offline (second open of the same object '
+                '= first); online_reopen_grown (a grown file re-opened by an OnlineReader exposes exactly the complete frames now '
+                'present, monotone, +m for m frames, whatever size the object remembers); grown_prefix_stable; nometa_768 / nometa_770 '
+                '/ nometa_both_384_wins / nometa_neither (inferred (nc, ns) reproduce the size exactly; 384 wins on multiples of 295 680)')
 LEVEL_TEXT = ('Lean 4 theorems for every byte length, channel count, item size, announced duration and positive rate: after open '
               'the exposed sample count is floor(bytes/(nc*itemsize)) (offline: round(fl(fl(k/fs)*fs)) = k for k < 2^50 in the '
               'standard model of rounding; online: trunc(fl(fl(b/s)/nc)) = floor for b < 2^40), the map lies inside the file, '
               'one more frame would not, values are the row-major prefix, rl = ns/fs; the .cbin reader exposes the .ch sample '
-              'count; the pre-fix formula provably fails; tied to the code by a differential run on real truncated files')
+              'count; the pre-fix formula provably fails; tied to the code by a differential run on real truncated files.'
+              + LEVEL_TEXT_H)
 LEVEL_NOTE = ('trusted: Lean kernel + Mathlib, standard model of float rounding (relates the R-theorems to IEEE arithmetic), the '
               'Python correspondence harness, numpy.memmap / mtscomp behaviour as stated. Finding kept: the offline Reader on meta '
-              'data without fileTimeSecs (recording in progress) raises TypeError in Reader.ns; OnlineReader opens them')
+              'data without fileTimeSecs (recording in progress) raises TypeError in Reader.ns; OnlineReader opens them. '
+              'Translator tie (regenerated from spikeglx.py every run, theorems Tie.C11.*): OnlineReader.ns, the duration Reader.open '
+              'writes, Reader.ns, Reader.shape, the duration of the mtscomp branch (shape[0] over the META rate), and Reader.open as '
+              'the sequence of its steps for each of the 6 combinations of its non-integer tests (is_mtscomp, meta present, '
+              'ignore_warnings, mtscomp shape mismatch: these four are per-item ASSUMPTIONS of the tie, the integer size test and the '
+              'order/guards of warning, rewrite and map are read from the source). NOT in the tie (outside the translator subset), '
+              'only hand model + correspondence: the size inference of __init__ ((n/d) % 2 == 0 on a float quotient, x = x or e), '
+              'Reader.rl (a returned fraction), close / __enter__ (bare attribute tests), the stale self.nbytes of a re-opened '
+              'object. Only numeric: float64 evaluation of st_size/384 % 2 and st_size/2/384 (exact below 2^53, executed, not '
+              'proved); durations to a quarter sample. Candidate finding: offline object re-opened after growth keeps the old count')
 TECHNIQUE = ('Lean 4 proof: Nat floor arithmetic (omega/simp) + real analysis of two roundings (Mathlib, linarith/nlinarith) over an '
-             'abstract float interface instantiated with IEEE Float in the driver; exact differential run on real files')
+             'abstract float interface instantiated with IEEE Float in the driver; exact differential run on real files; '
+             'translator tie: the step sequence / size test / durations of Reader.open, Reader.ns, OnlineReader.ns, Reader.shape '
+             're-translated from the source on every run and proved equal to the model (unfold + simp/omega)')
 
 def _fixtures():
     from framework import SRC
@@ -509,12 +562,129 @@ def _flat_cases(ctx, n):
     return out
 
 
+def _reopen_cases(ctx, n):
+    """the same reader OBJECT opened, closed and opened again (Reader.close / Reader.open): on the unchanged file (both
+    readers), and — OnlineReader only — on a file that was appended to in between (recording in progress): 1 byte, less than a
+    frame, exactly m frames, frames + trailing bytes.  The offline object re-opened after growth is the candidate finding
+    offline-reopen-stale-size and is not generated (a NEW offline Reader on the grown file is compared in the same case)."""
+    rng = ctx.rng
+    out = []
+    for _ in range(n):
+        u = rng.random()
+        if u < 0.7:
+            tpl, nc = 'nidq', int(rng.choice([1, 2, 3, 4, 5, 8, 16]))
+        else:
+            tpl, nc = str(rng.choice(['ap3A', 'np24', 'ap3B', 'ap277'])), 385
+            if tpl == 'ap277':
+                nc = 277
+        frame = nc * 2
+        k = int(rng.integers(1, 12 if nc > 100 else 60))
+        r = int(rng.choice([0, 0, 1, frame // 2, frame - 1, int(rng.integers(0, frame))]))
+        claim = [k, k, k - 1, k + 1, k + 0.5, 2 * k + 3][int(rng.integers(0, 6))]
+        reader = 'on' if rng.random() < 0.65 else 'off'
+        fs = str(rng.choice(FS_LIST[:7]))
+        c = _case(tpl, nc, fs, claim, k, r, reader, rng.integers(1 << 31), iw=bool(rng.random() < 0.2))
+        m = int(rng.integers(1, 4))
+        c['reopen'] = int(rng.choice([0, 1, frame - r - 1 if frame - r > 1 else 1, frame - r, m * frame, m * frame + 1,
+                                      m * frame + frame - 1, int(rng.integers(1, 3 * frame))])) if reader == 'on' else 0
+        out.append(c)
+    return out
+
+
+def _nometa_cases(ctx, n):
+    """Reader(bin) on a file WITHOUT a .meta: the constructor infers (nc, ns, fs, nsync) from the size — multiples of 768
+    bytes (384 channels), of 770 (385 channels + sync; 1..8 frames and 383..1500 frames, where size/2/384 and size/2/385 differ), of both (295 680: which branch wins), odd multiples of 384 / 385,
+    neighbours of all of them, arbitrary sizes — with none, some or all of nc / ns / fs / nsync given (0 = falsy)."""
+    rng = ctx.rng
+    out = []
+    for i in range(n):
+        m = int(rng.integers(1, 9)) if rng.random() < 0.5 else int(rng.choice([383, 385, 386, 767, 769, int(rng.integers(400, 1500))]))
+        kind = int(rng.choice(9, p=[0.2, 0.2, 0.12, 0.08, 0.08, 0.08, 0.08, 0.08, 0.08]))
+        size = [768 * m, 770 * m, 295680 * int(rng.integers(1, 3)), 384 * (2 * m + 1), 385 * (2 * m + 1),
+                768 * m + int(rng.choice([-2, -1, 1, 2])), 770 * m + int(rng.choice([-2, -1, 1, 2])),
+                int(rng.integers(1, 5000)), 2 * int(rng.integers(1, 40)) * int(rng.choice([3, 7, 16]))][kind]
+        a = {}
+        if rng.random() < 0.45:
+            matched = size % 768 == 0 or size % 770 == 0
+            if rng.random() < 0.5:
+                a['nc'] = int(rng.choice([0, 3, 384, 385] if matched else [1, 3, 7, 16]))
+            if rng.random() < 0.5:
+                nc_ = a.get('nc') or (385 if size % 768 else 384)
+                a['ns'] = int(rng.choice([0, 1, max(size // (2 * nc_), 1), size // (2 * nc_) + 1, 5]))
+            if rng.random() < 0.5:
+                a['fs'] = int(rng.choice([0, 2500, 30000, 1] if matched else [2500, 30000, 1]))
+            if rng.random() < 0.3:
+                a['nsync'] = int(rng.choice([0, 1, 2]))
+        out.append({'op': 'nometa', 'size': int(size), 'args': a, 'dtype': 'int16' if rng.random() < 0.85 else 'int32',
+                    'seed': int(rng.integers(1 << 31))})
+    return out
+
+
+def _run_nometa(c):
+    """real code on one no-meta case -> canonical string (same format as the driver's `nometa` answer, durations aside)"""
+    import spikeglx
+    d = Path(tempfile.mkdtemp(prefix='c11n_'))
+    sr = None
+    try:
+        p = d / 'flat_g0_t0.imec0.ap.bin'
+        raw = np.random.default_rng(c['seed']).integers(0, 255, size=c['size']).astype(np.uint8)
+        raw.tofile(p)
+        try:
+            sr = spikeglx.Reader(p, open=False, dtype=c['dtype'], **c['args'])
+        except AssertionError:
+            return 'err AssertionError'
+        except TypeError:
+            return 'err TypeError'
+        except Exception as e:   # noqa
+            return _err(e)
+        head = f'ok nc={int(sr.nc)} ns={int(sr.ns)} fs={int(sr.fs)} nsync={int(sr.nsync)}'
+        try:
+            sr.open()
+        except Exception as e:   # noqa
+            return head + ' open=' + _err(e).replace(' ', '_')
+        ns, nc = int(sr.shape[0]), int(sr.shape[1])
+        vals = 'ok'
+        isz = ITEMSIZE[c['dtype']]
+        if ns >= 1 and nc >= 1 and ns * nc * isz <= c['size']:
+            data = np.frombuffer(raw.tobytes()[:ns * nc * isz], dtype=c['dtype']).reshape(ns, nc)
+            try:
+                got = sr[ns - 1, :]
+                if not np.array_equal(np.asarray(got), _scaled(sr, data[ns - 1:ns, :])[0]):
+                    vals = 'last-frame-differs-from-the-file'
+            except Exception as e:   # noqa
+                vals = _err(e).replace(' ', '_')
+        return head + f' open=ok_ns={ns}_shape={ns},{nc} vals={vals}'
+    finally:
+        if sr is not None:
+            with contextlib.suppress(Exception):
+                sr.close()
+        shutil.rmtree(d, ignore_errors=True)
+
+
+def _nometa_line(c):
+    a = c['args']
+    g = lambda k_: '-' if k_ not in a else str(a[k_])   # noqa
+    return f'nometa {c["size"]} {g("nc")} {g("ns")} {g("fs")} {g("nsync")} {ITEMSIZE[c["dtype"]]}'
+
+
+def _nometa_model(ans):
+    """driver answer -> same canonical form (the duration bits are dropped: flat readers have no meta duration)"""
+    if not ans.startswith('ok '):
+        return ans
+    head, opened = ans.rsplit(' open=', 1)
+    if opened.startswith('ok_'):
+        d = dict(x.split('=', 1) for x in opened.split('_')[1:])
+        return f'{head} open=ok_ns={d["ns"]}_shape={d["shape"]} vals=ok'
+    return f'{head} open={opened}'
+
+
 def _cases(ctx):
     cases = _box(ctx, (1, 2, 3, 4), (0, 1, 2, 3)) if ctx.quick else _box(ctx, (1, 2, 3, 4, 5, 6), (0, 1, 2, 3, 5))
     cases += _random_cases(ctx, ctx.n(900, 9000))
     cases += _acquiring_cases(ctx, ctx.n(60, 400))
     cases += _cbin_cases(ctx, ctx.n(120, 700))
     cases += _flat_cases(ctx, ctx.n(60, 400))
+    cases += _reopen_cases(ctx, ctx.n(90, 600))
     # the form of the call is drawn independently of the value, for 60 % of the cases
     frng = ctx.subrng(13)
     cases = [_with_forms(c, frng) if frng.random() < 0.6 else c for c in cases]
@@ -619,12 +789,66 @@ def _run_impl(c, probes_rng):
             except Exception as e:   # noqa
                 rec['grown'] = _err(e)
             rec['grown_line'] = f'onlinens {nc} {b.isz} {b.nbytes + c["grow"]}'
+        # the same object closed and opened again, the file appended to in between (OnlineReader) or unchanged
+        if c.get('reopen') is not None and c['fmt'] == 'bin':
+            rec['re'] = _reopen_observe(c, b, sr)
+            rec['re_line'] = (f'reopen {c["reader"]} {nc} {b.isz} {b.nbytes} {b.nbytes + c["reopen"]} '
+                              f'{_bits(float(c["fs"]))} {"-" if c["fts"] is None else _bits(float(c["fts"]))}')
+            rec['fresh_line'] = (f'open {c["reader"]} {nc} {b.isz} {b.nbytes + c["reopen"]} '
+                                 f'{_bits(float(c["fs"]))} {"-" if c["fts"] is None else _bits(float(c["fts"]))}')
         return rec
     finally:
         if sr is not None:
             with contextlib.suppress(Exception):
                 sr.close()
         b.cleanup()
+
+
+def _prefix_tag(sr, path, dtype, nc):
+    """'ok' when sr[0:ns+3, :] is exactly the first ns complete frames of the file as it is now"""
+    ns = int(sr.ns)
+    data = np.fromfile(path, dtype=np.uint8)
+    isz = ITEMSIZE[dtype]
+    have = len(data) // (isz * nc)
+    try:
+        a = sr[0:ns + 3, :]
+    except Exception as e:   # noqa
+        return 'read ' + _err(e)
+    if ns > have:
+        return f'{ns} rows exposed, the file holds {have}'
+    want = _scaled(sr, np.frombuffer(data[:ns * nc * isz].tobytes(), dtype=dtype).reshape(ns, nc))
+    if a.shape != want.shape:
+        return f'read returned shape {tuple(a.shape)}'
+    return 'ok' if np.array_equal(a, want) else 'values differ from the file prefix'
+
+
+def _reopen_observe(c, b, sr):
+    """close, append c['reopen'] bytes, open() the same object; then a NEW reader on the grown file"""
+    import spikeglx
+    out = {}
+    try:
+        sr.close()
+        if c['reopen']:
+            b.grow(c['reopen'], c['seed'] + 2)
+        sr.open()
+        out['same'] = (f'ok ns={int(sr.ns)} shape={int(sr.shape[0])},{int(sr.shape[1])} '
+                       f'vals={_prefix_tag(sr, b.path, c["dtype"], c["nc"]).replace(" ", "_")}')
+        out['same_rl'] = float(sr.rl)
+    except Exception as e:   # noqa
+        out['same'] = _err(e)
+    new = None
+    try:
+        cls = spikeglx.OnlineReader if c['reader'] == 'on' else spikeglx.Reader
+        new = cls(b.path, sort=False, dtype=c['dtype'], ignore_warnings=bool(c.get('iw')))
+        out['fresh'] = (f'ok ns={int(new.ns)} shape={int(new.shape[0])},{int(new.shape[1])} '
+                        f'vals={_prefix_tag(new, b.path, c["dtype"], c["nc"]).replace(" ", "_")}')
+    except Exception as e:   # noqa
+        out['fresh'] = _err(e)
+    finally:
+        if new is not None:
+            with contextlib.suppress(Exception):
+                new.close()
+    return out
 
 
 def _desc(c):
@@ -688,7 +912,20 @@ def correspondence(ctx):
             lines2.append(f'at {m["ns"]} {nc} {nsamp} {i} {col}'); slots.append((idx, 'at'))
         if 'grown_line' in r:
             lines2.append(r['grown_line']); slots.append((idx, 'grown'))
+        if 're_line' in r:
+            lines2.append(r['re_line']); slots.append((idx, 're_same'))
+            lines2.append(r['fresh_line']); slots.append((idx, 're_fresh'))
+    # constructor without meta data (its own op)
+    nm_cases = _nometa_cases(ctx, ctx.n(150, 1500))
+    nm_base = len(lines2)
+    lines2 += [_nometa_line(c) for c in nm_cases]
     ans2 = ctx.lean(lines2)
+    for c, a in zip(nm_cases, ans2[nm_base:]):
+        size = c['size']
+        br = '768&770' if size % 295680 == 0 else '768' if size % 768 == 0 else '770' if size % 770 == 0 else 'neither'
+        ctx.compare('nometa', c, _run_nometa(c), _nometa_model(a), nontrivial=(br != 'neither' or bool(c['args'])),
+                    tags=('size=' + br, 'args=' + ('none' if not c['args'] else '+'.join(sorted(c['args']))), 'dtype=' + c['dtype']))
+    ans2 = ans2[:nm_base]
     per = {}
     for (idx, kind), a in zip(slots, ans2):
         per.setdefault(idx, {}).setdefault(kind, []).append(a)
@@ -761,6 +998,18 @@ def correspondence(ctx):
             impl_s += ' grown=' + r['grown'].replace(' ', '_')
             model_s += ' grown=' + (f'ok_{g.split()[1]}_shape={g.split()[1]},{c["nc"]}' if g.startswith('ok ') else g.replace(' ', '_'))
         ctx.compare('open', _desc(c), impl_s, model_s, nontrivial=nontrivial, tags=_tags(c, 'opens'))
+        if 're' in r:
+            def canon(a_):
+                mm = _parse_model(a_)
+                return a_ if mm is None else f'ok ns={mm["ns"]} shape={mm["shape"][0]},{mm["shape"][1]} vals=ok'
+            g = c['reopen']
+            frame = c['nc'] * r['isz']
+            gt = ('reopen:unchanged' if g == 0 else 'reopen:grown<frame' if g < frame else
+                  'reopen:grown=frames' if g % frame == 0 else 'reopen:grown>frame')
+            ms, mf = (per.get(idx, {}).get(k_, ['?'])[0] for k_ in ('re_same', 're_fresh'))
+            ctx.compare('reopen', _desc(c), r['re']['same'], canon(ms), nontrivial=True, tags=('reader=' + c['reader'], gt, 'same-object'))
+            ctx.compare('reopen', dict(_desc(c), fresh=True), r['re']['fresh'], canon(mf), nontrivial=True,
+                        tags=('reader=' + c['reader'], gt, 'new-object'))
     ctx.note(f'durations (rl, fileTimeSecs): {exact_rl} bit-identical to the model, {tol_rl} within tolerance, '
              f'largest deviation {worst:.3g} sample periods (tolerance 0.25)')
     ctx.note('exhaustive box: every trailing-byte count 0..frame-1 for nc in 1..%d, k in %s, 5 announced lengths, 2 rates, both readers'
@@ -822,12 +1071,46 @@ def oracle(c):
             now = (b.nbytes + c['grow']) // (nc * b.isz)
             if int(sr.ns) != now:
                 return f'after the file grew by {c["grow"]} bytes OnlineReader.ns = {int(sr.ns)}, complete frames = {now}'
+        if c.get('reopen') is not None and c['fmt'] == 'bin' and (c['reader'] == 'on' or c['reopen'] == 0):
+            # close, (online reader: the recording goes on) append, open the same object again
+            what = f'close(), {c["reopen"]} bytes appended, open()'
+            try:
+                sr.close()
+                if c['reopen']:
+                    b.grow(c['reopen'], c['seed'] + 2)
+                sr.open()
+            except Exception as e:   # noqa
+                return f'{what} raised {type(e).__name__}: {e}'
+            now = (b.nbytes + c['reopen']) // (nc * b.isz)
+            if int(sr.ns) != now or tuple(int(x) for x in sr.shape) != (now, nc):
+                return f'after {what}: ns = {int(sr.ns)}, shape = {tuple(sr.shape)}; the file holds {now} complete frames'
+            tag = _prefix_tag(sr, b.path, c['dtype'], nc)
+            if tag != 'ok':
+                return f'after {what}: {tag}'
+            if abs(float(sr.rl) * float(c['fs']) - now) > 0.25:
+                return f'after {what}: duration rl = {float(sr.rl)} s does not match {now} samples at {c["fs"]} Hz'
         return None
     finally:
         if sr is not None:
             with contextlib.suppress(Exception):
                 sr.close()
         b.cleanup()
+
+
+def oracle_nometa(c):
+    """C11 for a file without meta data opened with nothing but its path (int16): when the size is a whole number of
+    384- or 385-channel frames the reader opens and exposes frames that cover the file exactly (ns * nc * 2 = size, nc 384 or
+    385); anything else (arguments given, other sizes, other dtypes) is outside the property and not judged."""
+    if c.get('args') or c['dtype'] != 'int16' or (c['size'] % 768 and c['size'] % 770) or c['size'] == 0:
+        return None
+    got = _run_nometa(c)
+    if not got.startswith('ok ') or ' open=ok_' not in got:
+        return f'Reader(path) on a {c["size"]}-byte file without meta data: {got}'
+    d = dict(x.split('=', 1) for x in got.split()[1:] if '=' in x)
+    nc, ns = int(d['nc']), int(d['ns'])
+    if nc not in (384, 385) or ns * nc * 2 != c['size'] or 'vals=ok' not in got:
+        return f'Reader(path) on a {c["size"]}-byte file without meta data exposes ({ns}, {nc}): {got}'
+    return None
 
 
 def _size_key(c):
@@ -842,10 +1125,22 @@ def search(ctx, reasons):
     class _R:
         pass
     fake = _R(); fake.rng = rng; fake.quick = True; fake.n = lambda q, t: q
-    cands += _cbin_cases(fake, 40) + _acquiring_cases(fake, 12) + _random_cases(fake, 250)
+    cands += _cbin_cases(fake, 40) + _acquiring_cases(fake, 12) + _random_cases(fake, 250) + _reopen_cases(fake, 40)
     small = _box(ctx, (1, 2), (1, 2))
     cands += [_with_forms(dict(c), rng) for c in small[::3]] + [_with_forms(c, rng) for c in _cbin_box()[:12]]
     best = None
+    nm = [m['case'] for m in ctx.mismatches[:40] if isinstance(m.get('case'), dict) and m['case'].get('op') == 'nometa']
+    nm += [{'op': 'nometa', 'size': sz, 'args': {}, 'dtype': 'int16', 'seed': 1} for sz in (768, 770, 1536, 1540, 3840, 3850, 295680, 768 * 385 + 768, 770 * 385, 770 * 769)]
+    for c in sorted(nm, key=lambda q: q['size']):
+        try:
+            res = oracle_nometa(c)
+        except Exception as e:   # noqa
+            res = f'oracle raised {type(e).__name__}: {e}'
+        if res:
+            return {'input': dict(c), 'observed': res,
+                    'expected': 'C11: a file of whole 384- / 385-channel int16 frames without meta data opens and the exposed '
+                                '(ns, nc) cover it exactly: ns * nc * 2 = size',
+                    'how': 'harness/props/c11.py: oracle_nometa(input) writes a file of that size and calls spikeglx.Reader(path)'}
     for c in cands:
         c = dict(c)
         try:
@@ -865,6 +1160,10 @@ def search(ctx, reasons):
 
 
 def replay(ctx, rep):
+    if rep['input'].get('op') == 'nometa':
+        r = oracle_nometa(dict(rep['input']))
+        print('oracle:', r)
+        return r is not None
     r = oracle(dict(rep['input']))
     print('oracle:', r)
     return r is not None
@@ -927,4 +1226,25 @@ def known_findings(ctx):
                 return True
         finally:
             b.cleanup()
-    return {'incomplete-meta-keys': demo, 'meta-file-kw-str': demo_meta_kw, 'flat-open-false-context': demo_flat_ctx}
+
+    def demo_offline_reopen():
+        """candidate finding offline-reopen-stale-size: an OFFLINE Reader consistent with its file (4 frames x 3 channels),
+        close(), the file grows by 2 complete frames, open() again -> still ns = 4 (self.nbytes is read once in __init__, so the
+        size test does not fire), the file holds 6; a NEW Reader and the OnlineReader expose 6 (theorem
+        offline_reopen_stale_counterexample).  Excluded from the generator: the offline object is only re-opened on an unchanged file."""
+        logging.getLogger('ibllib').setLevel(logging.CRITICAL)
+        b = Built(_case('nidq', 3, '30000', 4, 4, 0, 'off', 5))
+        sr = None
+        try:
+            sr = b.open()
+            sr.close()
+            b.grow(12, 6)
+            sr.open()
+            return int(sr.ns) == 4 and b.path.stat().st_size // 6 == 6
+        finally:
+            if sr is not None:
+                with contextlib.suppress(Exception):
+                    sr.close()
+            b.cleanup()
+    return {'incomplete-meta-keys': demo, 'meta-file-kw-str': demo_meta_kw, 'flat-open-false-context': demo_flat_ctx,
+            'offline-reopen-stale-size': demo_offline_reopen}
